@@ -169,6 +169,185 @@ def _case(draw):
             "expect": "err" if applied else "ok"}
 
 
+# ------------------------------------------------------------------------------------------------------------------------------
+# NestGen: uses of annotated definitions across deeply nested blocks, and calls through class chains with overrides
+# ------------------------------------------------------------------------------------------------------------------------------
+NEST_WORLD = """class A(def a: Int)
+    def ma(fin self, k: Int) -> Int => k + self.a
+class B(bx: Int): A(bx)
+class U(def u: Str)
+class HErr(msg: Str): Exception(msg)
+def hr() -> Int raise [HErr] => 1
+def si(p: Int) => print(p)
+def sf(p: Float) => print(p)
+def ss(p: Str) => print(p)
+def sb(p: Bool) => print(p)
+def sa(p: A) => print(1)
+def su(p: U) => print(1)
+def vi: Int := 3
+def vb: Bool := True
+"""
+NEST_LIT = {"Int": ["1", "7", "vi"], "Float": ["2.5", "0.5"], "Str": ['"s"', '"tt"'], "Bool": ["True", "vb"], "A": ["A(1)", "A(2)"],
+            "B": ["B(3)"], "U": ['U("u")']}
+NEST_SINK = {"Int": "si", "Float": "sf", "Str": "ss", "Bool": "sb", "A": "sa", "U": "su"}
+
+
+class _Nest:
+    def __init__(self, draw, fault):
+        self.draw = draw
+        self.lines = []
+        self.n = 0
+        self.uses = []          # (line index, sink type, variable, variable type)
+        self.fault = fault
+        self.budget = 14
+
+    def i(self, lo, hi):
+        return self.draw(st.integers(lo, hi))
+
+    def pick(self, seq):
+        seq = list(seq)
+        return seq[self.i(0, len(seq) - 1)]
+
+    def emit(self, ind, text):
+        self.lines.append("    " * ind + text)
+        return len(self.lines) - 1
+
+    def block(self, ind, scope, depth):
+        scope = dict(scope)
+        for _ in range(self.i(1, 3)):
+            self.stmt(ind, scope, depth)
+
+    def stmt(self, ind, scope, depth):
+        self.budget -= 1
+        opts = ["def", "def", "use", "use", "use"]
+        if depth < 4 and self.budget > 0:
+            opts += ["if_else", "if_else", "if_else", "if", "match", "for", "while", "handle"]
+        k = self.pick(opts)
+        if k == "def" or (k == "use" and not scope):
+            self.n += 1
+            t = self.pick(sorted(NEST_LIT))
+            name = "n%d" % self.n
+            self.emit(ind, "def %s: %s := %s" % (name, t, self.pick(NEST_LIT[t])))
+            scope[name] = t
+        elif k == "use":
+            v = self.pick(sorted(scope))
+            vt = scope[v]
+            sinks = [t for t in NEST_SINK if sites.subtype(vt, t)]
+            t = self.pick(sinks)
+            form = self.pick(["call", "call", "init", "method"]) if t == "Int" else self.pick(["call", "call", "init"])
+            self.n += 1
+            if form == "call":
+                idx = self.emit(ind, "%s(%s)" % (NEST_SINK[t], v))
+            elif form == "init":
+                idx = self.emit(ind, "def m%d: %s := %s" % (self.n, t, v))
+            else:
+                idx = self.emit(ind, "def m%d: Int := A(1).ma(%s)" % (self.n, v))
+            self.uses.append((idx, t, v, vt, form))
+        elif k in ("if_else", "if"):
+            self.emit(ind, "if vi > %d then" % self.i(0, 5))
+            self.block(ind + 1, scope, depth + 1)
+            if k == "if_else":
+                self.emit(ind, "else")
+                self.block(ind + 1, scope, depth + 1)
+        elif k == "match":
+            self.emit(ind, "match vi")
+            for l in sorted(set(self.i(0, 4) for _ in range(self.i(1, 2)))):
+                self.emit(ind + 1, "%d =>" % l)
+                self.block(ind + 2, scope, depth + 1)
+            self.emit(ind + 1, "_ =>")
+            self.block(ind + 2, scope, depth + 1)
+        elif k == "for":
+            self.n += 1
+            self.emit(ind, "for q%d in 0 .. 2 do" % self.n)
+            inner = dict(scope)
+            inner["q%d" % self.n] = "Int"
+            self.block(ind + 1, inner, depth + 1)
+        elif k == "while":
+            self.emit(ind, "while vi > 5 do")
+            self.block(ind + 1, scope, depth + 1)
+        else:
+            self.emit(ind, "hr() handle")
+            self.emit(ind + 1, "herr%d: HErr =>" % self.budget)
+            self.block(ind + 2, scope, depth + 1)
+            self.emit(ind + 2, "print(0)")
+
+    def program(self):
+        where = self.pick(["top", "fun", "method"])
+        if where == "top":
+            self.block(0, {}, 0)
+            body, off = self.lines, 0
+        elif where == "fun":
+            self.block(1, {"fp": "Int"}, 0)
+            body, off = ["def host(fp: Int) =>"] + self.lines + ["host(1)"], 1
+        else:
+            self.block(2, {"mp": "Str"}, 0)
+            body, off = ["class Host(def hv: Int)", "    def hm(self, mp: Str) =>"] + self.lines + ['Host(1).hm("x")'], 2
+        self.uses = [(u[0] + off,) + tuple(u[1:]) for u in self.uses]
+        planted = None
+        if self.fault and self.uses:
+            idx, t, v, vt, form = self.pick(self.uses)
+            wrong = self.pick(sites.DEFINITE_MISMATCH[t])
+            bad = self.pick(NEST_LIT[wrong]) if wrong in NEST_LIT else '"zz"'
+            # the wrong value stands where the variable stood (a literal: the fault is local to this use)
+            line = body[idx]
+            body[idx] = line[::-1].replace(v[::-1], bad[::-1], 1)[::-1]
+            planted = {"line": idx + 1 + NEST_WORLD.count("\n"), "required": t, "given": wrong, "form": form, "where": where,
+                       "indent": (len(line) - len(line.lstrip())) // 4}
+        return NEST_WORLD + "\n".join(body) + "\n", planted
+
+
+@st.composite
+def _nest_case(draw):
+    fault = draw(st.integers(0, 2)) > 0
+    g = _Nest(draw, fault)
+    src, planted = g.program()
+    return {"gen": "nest", "src": src, "expect": "err" if planted else "ok", "fault": planted, "kind": "nest", "position": "nest",
+            "mutation": planted["form"] if planted else None}
+
+
+def _chain_world(draw):
+    """A chain of 3-4 classes; a method is introduced at one level and overridden at a lower level with another parameter type
+    (and possibly another result type). The signature that counts for a call is the one of the nearest class above the receiver."""
+    n = draw(st.integers(3, 4))
+    types = ["Int", "Str", "Bool", "Float"]
+    intro = draw(st.integers(0, n - 2))
+    over = draw(st.integers(intro + 1, n - 1)) if draw(st.booleans()) else None
+    t_intro = draw(st.sampled_from(types))
+    t_over = draw(st.sampled_from([t for t in types if t != t_intro and not sites.subtype(t_intro, t) and not sites.subtype(t, t_intro)]))
+    lines = []
+    sig = {}
+    for k in range(n):
+        head = "class C%d(def f%d: Int)" % (k, k) if k == 0 else "class C%d(g%d: Int): C%d(g%d)" % (k, k, k - 1, k)
+        lines.append(head)
+        if k == intro:
+            lines.append("    def meth(fin self, p: %s) -> Int => 1" % t_intro)
+        if over is not None and k == over:
+            lines.append("    def meth(fin self, p: %s) -> Int => 2" % t_over)
+        lines.append("    def own%d(fin self) -> Int => %d" % (k, k))
+        cur = t_over if (over is not None and k >= over) else (t_intro if k >= intro else None)
+        sig[k] = cur
+    return "\n".join(lines) + "\n", sig, n
+
+
+@st.composite
+def _chain_case(draw):
+    world, sig, n = _chain_world(draw)
+    cands = [k for k in range(n) if sig[k] is not None]
+    k = cands[draw(st.integers(0, len(cands) - 1))]
+    want = sig[k]
+    conform = draw(st.integers(0, 2)) == 0
+    lit = {"Int": "3", "Str": '"s"', "Bool": "True", "Float": "2.5"}
+    given = want if conform else draw(st.sampled_from([t for t in lit if t != want and not sites.subtype(t, want)]))
+    via = draw(st.sampled_from(["instance", "instance", "self"]))
+    if via == "instance":
+        tail = "def obj: C%d := C%d(1)\ndef res: Int := obj.meth(%s)\nprint(res)\n" % (k, k, lit[given])
+    else:
+        world = world.replace("    def own%d(fin self) -> Int => %d" % (k, k), "    def own%d(fin self) -> Int => self.meth(%s)" % (k, lit[given]))
+        tail = "print(C%d(1).own%d())\n" % (k, k)
+    return {"gen": "chain", "src": world + tail, "expect": "ok" if conform else "err", "kind": "chain", "position": via,
+            "mutation": None if conform else "bad_arg", "fault": {"receiver": "C%d" % k, "required": want, "given": given}}
+
+
 class C05:
     id = "C05"
     cases = {"quick": 700, "thorough": 25000}
@@ -181,18 +360,28 @@ class C05:
             "non-conforming type, a declared result type the returned type does not conform to, an initialiser or returned value of "
             "a non-conforming type. Oracle: conforming => accepted, mutated => rejected with >=1 non-empty diagnostic; subtyping is "
             "exactly Int <: Float, B <: A, T <: Any. Non-trivial: every case (all are targeted); distinct by SHA-1 of the source; "
-            "the kind x position x mutation histogram is reported.")
+            "the kind x position x mutation histogram is reported. (nest) NestGen: blocks nested up to depth 4 (if/else, if, match, for, "
+            "while, handle; at top level, in a function, in a method) with annotated definitions of seven types at every level and "
+            "uses (argument of a typed sink function, annotated initialiser, method argument) of any visible definition at any deeper "
+            "level; 2/3 of the cases replace the variable of one use by a value of a definitely non-conforming type. (chain) a chain "
+            "of 3-4 classes, a method introduced at one level and overridden further down with an unrelated parameter type; a call "
+            "through an instance or through self of any class of the chain conforms iff its argument conforms to the nearest "
+            "definition above the receiver.")
     assumptions = ["pairs the documentation leaves open (Bool where Int is wanted, ...) are never used on either side",
                    "a verdict that differs from the expectation is re-run 10x; an unstable verdict is C12's finding"]
     strict = False
 
     def strategy(self, tier, switches):
         sites.SWITCHES.update(s.split(".", 1)[1] for s in switches if "." in s)
-        return _case()
+        return st.one_of(_case(), _case(), _nest_case(), _nest_case(), _chain_case())
+
+    def _tail(self, case):
+        g = case.get("gen")
+        return case["src"][len(NEST_WORLD):] if g == "nest" else case["src"] if g == "chain" else case["src"][len(sites.WORLD):]
 
     def summarize(self, case):
         return {"kind": case["kind"], "position": case["position"], "mutation": case["mutation"], "expect": case["expect"],
-                "tail": case["src"][len(sites.WORLD):]}
+                "fault": case.get("fault"), "tail": self._tail(case)}
 
     def check(self, worker, case, stats):
         r = worker.transpile1(case["src"], False)
@@ -218,6 +407,6 @@ class C05:
             return None
         if case["expect"] == "ok":
             return {"what": "a conforming %s at position %s is rejected" % (case["kind"], case["position"]),
-                    "diagnostics": r["err"][:2], "tail": case["src"][len(sites.WORLD):]}
+                    "diagnostics": r["err"][:2], "tail": self._tail(case)}
         return {"what": "a %s with mutation %s at position %s is accepted" % (case["kind"], case["mutation"], case["position"]),
-                "tail": case["src"][len(sites.WORLD):]}
+                "fault": case.get("fault"), "tail": self._tail(case)}
